@@ -96,19 +96,27 @@ inductive IterKind where
   | list | tuple | gen | dict | kw
   deriving DecidableEq, Repr, Inhabited
 
+/-- what `TrackedValue.make` does with a tuple: leaves it alone / wraps the containers among its items / turns it into a TrackedList -/
+inductive TupleMode where
+  | leave | items | list
+  deriving DecidableEq, Repr, Inhabited
+
 /-- What the Tracked classes do — regenerated from the real classes on every run (Gen/TrackedTable.lean).
     `listOv` / `dictOv` / `arrOv`: mutating methods resolved (along the MRO) to something else than the built-in's;
-    `makeTuple`: does `TrackedValue.make` wrap a tuple value;
+    `tupleMode`: what `TrackedValue.make` does with a tuple value (probed);
     `iterUnwrapped`: (method, kind of iterable) for which a container element of the iterable is stored unwrapped;
     `notifyOnError`: is the object marked modified when the built-in method raised. -/
 structure Cfg where
   listOv : List LM
   dictOv : List DM
   arrOv : List LM
-  makeTuple : Bool
+  tupleMode : TupleMode
   iterUnwrapped : List (IM × IterKind)
   notifyOnError : Bool        -- does `tracked_method` call `_changed_()` when the built-in method raised (try/finally)
   deriving Repr, Inhabited
+
+/-- does `make` wrap the containers inside a tuple -/
+def Cfg.makeTuple (cfg : Cfg) : Bool := cfg.tupleMode != .leave
 
 def Cfg.wraps (cfg : Cfg) (m : IM) (k : IterKind) : Bool := !cfg.iterUnwrapped.contains (m, k)
 
@@ -126,7 +134,10 @@ mutual
 /-- `TrackedValue.make(obj, attr, value)` (deep: the Tracked constructors call `make` on every item) -/
 def make (cfg : Cfg) : T → T
   | .atom a => .atom a
-  | .node .tup w xs => if cfg.makeTuple then .node .list true (makeL cfg xs) else .node .tup w xs
+  | .node .tup w xs => match cfg.tupleMode with
+      | .leave => .node .tup w xs
+      | .items => .node .tup w (makeL cfg xs)
+      | .list => .node .list true (makeL cfg xs)
   | .node k _ xs => .node k true (makeL cfg xs)
 def makeL (cfg : Cfg) : Items → Items
   | [] => []
